@@ -62,6 +62,26 @@ def run(tier, seed):
                     src, err, kind = check(env, seq)
                     if err:
                         viol.append({"id": kind.split(":")[0], "witness": kind + ":nested", "source": src, "got": err, "names": list(seq)})
+    # same-name nesting: an inner block of the same name is closed before the outer block's inner tag
+    for outer, its in inner.items():
+        for it in its:
+            for deep in (1, 2):
+                seq = [outer] + [outer, blocks[outer][1]] * deep + [it, blocks[outer][1]]
+                if outer == "case":
+                    seq = [outer, "when"] + [outer, "when", blocks[outer][1]] * deep + [it, blocks[outer][1]]
+                cases += 1
+                src, err, kind = check(env, seq)
+                if err:
+                    viol.append({"id": kind.split(":")[0], "witness": kind + ":same-name-nesting", "source": src, "got": err, "names": list(seq)})
+    # history: an analysis in another environment (other tags, other inner-tag map) beforehand must
+    # not change what this environment reports
+    before = [(dict(r.unknown_tags), dict(r.unexpected_tags), dict(r.unclosed_tags)) for r in (env.analyze_tags_from_string(x) for x in ("{% plural %}", "{% translate %}{% plural %}{% endtranslate %}", "{% if a %}{% plural %}{% endif %}"))]
+    Environment(extra=True).analyze_tags_from_string("{% translate %}a{% plural %}b{% endtranslate %}{% macro m %}{% endmacro %}")
+    Environment(extra=True).analyze_tags_from_string("{% if x %}{% endif %}", inner_tags={"if": ["nosuch", "assign"], "nosuch": ["text"]})
+    after = [(dict(r.unknown_tags), dict(r.unexpected_tags), dict(r.unclosed_tags)) for r in (env.analyze_tags_from_string(x) for x in ("{% plural %}", "{% translate %}{% plural %}{% endtranslate %}", "{% if a %}{% plural %}{% endif %}"))]
+    cases += 3
+    if before != after:
+        viol.append({"id": "history-dependent", "witness": "other-environment-analysed-first", "source": "{% plural %} analysed before/after an extra-environment analysis", "got": f"before={before} after={after}", "names": ["history"]})
     # the extra environment: macro/call, block, with, translate/plural
     xenv = Environment(extra=True)
     XP = dict(PIECES)
@@ -108,6 +128,10 @@ def run(tier, seed):
 
 
 def replay(case):
+    if case["names"] == ["history"]:
+        r = run("quick", 0)
+        v = [x for x in r["violations"] if x["id"] == "history-dependent"]
+        return {"failing": bool(v), "call": "history", "result": v[0]["got"] if v else None}
     src, err, kind = check(Environment(), case["names"])
     return {"failing": err is not None, "call": src, "result": err}
 
